@@ -1,8 +1,11 @@
 #!/bin/sh
-# tools/seedtest.sh <property> <patch.diff> : apply a seeded patch to /repo, run the quick check, revert
-P=$1; D=$2
-cd /repo && git apply "$D" || exit 9
-cd /verif && PVC_EVIDENCE_DIR=/verif/.work/seed-evidence ./check $P > /tmp/seedtest.out 2>&1; rc=$?
-grep -E "^VIOLATION|^UNDECIDED|^CHECKER|^$P:|replayed on" /tmp/seedtest.out | cut -c1-260
+# tools/seedtest.sh <property> <patch.diff> : run the quick check against a scratch worktree of /repo's HEAD with the seeded patch applied
+# (VERIF_REPO points the engine and the replay drivers at that tree; /repo itself and the committed evidence stay untouched).
+# Equivalent to: git -C /repo apply <patch>; ./check <property>; git -C /repo checkout -- .
+P=$1; D=$2; WT=/tmp/mut/seedwt.$$; mkdir -p /tmp/mut
+git -C /repo worktree add -f --detach $WT HEAD >/dev/null 2>&1 || exit 8
+(cd $WT && git apply "$D") || { git -C /repo worktree remove --force $WT; exit 9; }
+cd /verif && VERIF_REPO=$WT PVC_EVIDENCE_DIR=/verif/.work/seed-evidence ./check $P > /tmp/mut/seedtest.$$.out 2>&1; rc=$?
+grep -E "^VIOLATION|^UNDECIDED|^CHECKER|^$P:|replayed on" /tmp/mut/seedtest.$$.out | cut -c1-260
 echo "exit=$rc"
-cd /repo && git checkout -- . && git status --short | grep -v workflow.py
+rm -f /tmp/mut/seedtest.$$.out; git -C /repo worktree remove --force $WT
